@@ -198,8 +198,63 @@ def _m_backslash(match, case, detail):
 MATCHERS = {"backtick_content_trailing_odd_backslashes": _m_backslash}
 
 
+# ------------------------------------------------------------------ python normalisation (PyNorm.tla)
+def replay_pynorm(case):
+    """One expression of MC_PyNorm: its canonical text and re-spacings of it, call-style and brace-quoted, must normalise to the
+    model's normal form (quoted names verbatim), as one python token and as a factor of a parsed formula."""
+    from formulaic import Formula
+    from formulaic.parser.algos.sanitize_tokens import sanitize_tokens
+    from formulaic.parser.algos.tokenize import tokenize
+
+    text = case["text"]
+    spaced = text.replace("(", "( ").replace(")", " )").replace(",", " ,")
+    bad, n = [], 0
+    for form in (text, spaced, "{" + text + "}", "{ " + spaced + "  }"):
+        n += 1
+        try:
+            toks = list(sanitize_tokens(tokenize(form)))
+            got = [t.token for t in toks]
+            if got != [text] or toks[0].kind.value != "python":
+                bad.append({"string": form, "why": "python-normal-form", "observed": got, "expected": [text]})
+                continue
+            f = Formula(form + " + zz", _ordering="none")
+            exprs = [[fac.expr for fac in t.factors] for t in f]
+            if exprs != [["1"], [text], ["zz"]]:
+                bad.append({"string": form, "why": "python-normal-form (factor of the parsed formula)", "observed": exprs, "expected": [["1"], [text], ["zz"]]})
+        except Exception as e:  # noqa
+            bad.append({"string": form, "why": "python-normal-form", "observed": type(e).__name__ + ": " + str(e)[:120], "expected": [text]})
+    return bad, n
+
+
+def pynorm_leg(ctx: Ctx, depth: int):
+    out = workdir("c15") / "pynorm.ndjson"
+    out.unlink(missing_ok=True)
+    cfg = f'SPECIFICATION Spec\nCONSTANTS\n  Emit = TRUE\n  Variant = "fixed"\n  Depth = {depth}\nINVARIANT Faithful\nINVARIANT EmitCase\n'
+    r = run_tlc("MC_PyNorm", cfg, tag="c15p", env={"OUT_FILE": str(out)}, timeout=3000)
+    if r.violated:
+        ctx.model_violation(r, "MC_PyNorm")
+    ctx.add_tlc(r, f"python normalisation: alias / format / restore is faithful (normal form = canonical formatting with quoted names verbatim); call expressions of depth <= {depth}")
+    v = run_tlc("MC_PyNorm", cfg.replace('"fixed"', '"pinned"').replace("Emit = TRUE", "Emit = FALSE"), tag="c15p", timeout=3000)
+    if "Faithful" not in v.violated:
+        raise MachineryError("MC_PyNorm: the pinned alias algorithm does not violate Faithful - the expression family is vacuous")
+    cases = read_emitted(out)
+    out.unlink()
+    if len(cases) != r.distinct:
+        raise MachineryError(f"emission incomplete: {len(cases)} of {r.distinct}")
+    res = pmap("harness.props.c15", "replay_pynorm", cases, chunk=100)
+    for c, (bad, n) in zip(cases, res):
+        ctx.traces += n
+        ctx.evaluations += n
+        if c["nq"] >= 1:
+            ctx.nontrivial.add(("py", c["text"]))
+        for b in bad:
+            ctx.violation({"string": b["string"], "kind": "pynorm"}, b, kind="replay")
+    ctx.sample({"python_fragment": cases[len(cases) // 2]["text"]})
+
+
 def run(ctx: Ctx) -> None:
     ctx.rule = ("every character string over the model alphabet up to the bound (replay: token-for-token equality with tokenize()); "
+                "every call expression of MC_PyNorm (identifiers, quoted names, string literals that overlap textually) x 4 spellings; "
                 "trace: random formulas with unicode quoted names and python fragments, single-space insertions, verbatim names; "
                 "non-trivial = lexes without error into >= 2 (replay) / >= 3 (trace) tokens")
     ctx.trusted = ["lexical classes of characters computed with the regexes tokenize() documents", "ast.parse/ast.dump as the oracle of 'differ only in formatting'",
@@ -208,11 +263,13 @@ def run(ctx: Ctx) -> None:
     if ctx.quick:
         enumerated(ctx, 4, "c20")
         trace_leg(ctx, 600)
+        pynorm_leg(ctx, 1)
     else:
         enumerated(ctx, 5, "c16")
         enumerated(ctx, 4, "c27")
         enumerated(ctx, 6, "c8", ws=False)
         trace_leg(ctx, 8000)
+        pynorm_leg(ctx, 2)
     ctx.exhaustive = True
 
 
